@@ -40,6 +40,15 @@ type callCtx struct {
 	deferred []func(s *State)
 	lit      *ast.FuncLit
 	deferredRecover *ast.FuncLit
+	escaped  []*Exit // panics raised inside a deferred function of the top-level function
+	defers   []*deferRec
+	deferOf  *Exit // this frame executes a deferred function for that exit of the parent frame
+}
+
+type deferRec struct {
+	lit  *ast.FuncLit
+	args []*Value
+	env  *Env
 }
 
 type Obligation struct {
@@ -100,6 +109,7 @@ type Exec struct {
 	readBank   bool
 	pureDepth  int
 	selfFn     *FuncInfo
+	skipWrapped bool
 }
 
 func NewExec(pr *Program) *Exec {
@@ -130,7 +140,7 @@ func (x *Exec) requireSafe(s *State, safe *Term, what string, pos token.Pos) {
 		return
 	}
 	c := x.cur
-	if x.nopanicMode && x.specMode == 0 {
+	if x.nopanicMode && x.specMode == 0 && !x.recoverActive() {
 		x.panicSeq[what]++
 		name := fmt.Sprintf("%s/nopanic:%s@%d", x.fnTag, what, x.panicSeq[what])
 		x.Obls = append(x.Obls, &Obligation{Name: name, Prop: x.propTag, Kind: "nopanic", Hyp: s.PC, Goal: safe, Pos: x.Pr.Pos(pos), Inputs: x.entryInputs})
@@ -456,17 +466,71 @@ func (x *Exec) execStmt(s *State, st ast.Stmt) *State {
 }
 
 func (x *Exec) execDefer(s *State, st *ast.DeferStmt) *State {
-	// defer of iterator Close / telemetry: ignored. defer func(){ recover() }: handled by callers (built-in rules).
+	// Deferred function literals run at every exit of the function, last in first out (also when the function panics).
+	// Deferred plain calls (iterator Close, telemetry) have no effect on the modelled state and are skipped.
 	if lit, ok := st.Call.Fun.(*ast.FuncLit); ok {
+		var args []*Value
+		for _, a := range st.Call.Args {
+			args = append(args, x.eval(s, a))
+		}
 		if containsRecover(lit.Body) {
 			x.cur.recovers = true
-			x.cur.deferredRecover = lit
-			return s
 		}
-		// closing iterators and similar: ignore bodies that only call Close/log
+		x.cur.defers = append(x.cur.defers, &deferRec{lit: lit, args: args, env: x.cur.env})
 		return s
 	}
 	return s
+}
+
+// runDefers executes the deferred function literals of frame c on exit e (LIFO). recover() inside them stops a panic.
+func (x *Exec) runDefers(c *callCtx, e *Exit) {
+	if len(c.defers) == 0 {
+		return
+	}
+	saved := x.cur
+	defer func() { x.cur = saved }()
+	for i := len(c.defers) - 1; i >= 0; i-- {
+		if e.S == nil || e.S.PC.Op == "false" {
+			return
+		}
+		d := c.defers[i]
+		rc := &callCtx{fi: c.fi, info: c.info, pkg: c.pkg, env: NewEnv(d.env), depth: c.depth + 1, parent: c, lit: d.lit, deferOf: e}
+		x.cur = rc
+		x.bindParams(e.S, rc, d.lit.Type, nil, nil, d.args, d.lit.Pos())
+		end := x.execBlock(e.S, d.lit.Body.List)
+		var all []*State
+		if end != nil {
+			all = append(all, end)
+		}
+		for _, ex := range rc.exits {
+			if ex.Kind == "return" {
+				all = append(all, ex.S)
+				continue
+			}
+			// a panic raised inside a deferred function replaces the current outcome on that path
+			if c.parent != nil {
+				c.parent.exits = append(c.parent.exits, ex)
+			} else {
+				c.escaped = append(c.escaped, ex)
+			}
+		}
+		m := x.mergeMany(all)
+		if m == nil {
+			e.S.PC = False
+			return
+		}
+		*e.S = *m
+	}
+	if e.Kind == "return" && len(c.resCells) > 0 {
+		// named results may have been changed by deferred functions
+		vals := make([]*Value, len(c.resCells))
+		for i, cell := range c.resCells {
+			vals[i] = e.S.Heap[cell]
+		}
+		if len(vals) == len(e.Vals) || e.Vals == nil {
+			e.Vals = vals
+		}
+	}
 }
 
 func containsRecover(n ast.Node) bool {
@@ -675,7 +739,39 @@ func (x *Exec) execTypeSwitch(s *State, st *ast.TypeSwitchStmt) *State {
 		dyn = v.Dyn
 	}
 	if dyn.K == KOpaque || dyn.Typ == nil {
-		x.fail(st.Pos(), "type switch on value of unknown dynamic type")
+		// unknown dynamic type: every clause may be taken (sound over-approximation)
+		var outs []*State
+		rest := s
+		for _, cc := range st.Body.List {
+			cl := cc.(*ast.CaseClause)
+			if rest == nil {
+				break
+			}
+			sel := Fresh("typeswitch", SBool)
+			sa := rest.Clone()
+			sa.Assume(sel)
+			rest.Assume(Not(sel))
+			var bv *Value
+			if len(cl.List) == 1 {
+				if tt := x.cur.info.TypeOf(cl.List[0]); tt != nil {
+					if _, isIface := tt.Underlying().(*types.Interface); isIface {
+						bv = &Value{K: KOpaque, Typ: tt}
+					} else {
+						bv = x.freshValue(tt, "typeswitch.val", sa)
+					}
+				}
+			}
+			if bv == nil {
+				bv = v
+			}
+			if r := x.execTypeCase(sa, cl, bindName, bv); r != nil {
+				outs = append(outs, r)
+			}
+		}
+		if rest != nil {
+			outs = append(outs, rest)
+		}
+		return x.mergeMany(outs)
 	}
 	var deflt *ast.CaseClause
 	for _, cc := range st.Body.List {
@@ -975,4 +1071,15 @@ func implementsError(t types.Type) bool {
 		return false
 	}
 	return types.Implements(t, errorIface)
+}
+
+// recoverActive reports whether a deferred recover() is installed in the current call chain
+// (a panic is then not fatal: it becomes a path through the recover handler).
+func (x *Exec) recoverActive() bool {
+	for c := x.cur; c != nil; c = c.parent {
+		if c.recovers {
+			return true
+		}
+	}
+	return false
 }
